@@ -56,10 +56,32 @@ def load_cfg(pid):
     return cfg
 
 
+def modfile_args():
+    """VERIF_REPO=<dir> points the checks at another copy of the repository (scratch worktrees for
+    sensitivity experiments); the registered commands never set it and build from /repo."""
+    alt = os.environ.get("VERIF_REPO")
+    if not alt:
+        return []
+    alt = os.path.abspath(alt)
+    tag = hashlib.sha256(alt.encode()).hexdigest()[:12]
+    mf = os.path.join(WORK, "alt-%s.mod" % tag)
+    s = open(os.path.join(ROOT, "go.mod")).read()
+    s = s.replace("=> /repo/gcetcbendorsement", "=> %s/gcetcbendorsement" % alt).replace("=> /repo\n", "=> %s\n" % alt)
+    with open(mf, "w") as f:
+        f.write(s)
+    shutil.copy(os.path.join(ROOT, "go.sum"), mf[:-4] + ".sum")
+    return ["-modfile=" + mf]
+
+
+def bin_suffix():
+    alt = os.environ.get("VERIF_REPO")
+    return "" if not alt else "." + hashlib.sha256(os.path.abspath(alt).encode()).hexdigest()[:12]
+
+
 def build(pid, race=False):
     os.makedirs(os.path.join(WORK, "bin"), exist_ok=True)
-    out = os.path.join(WORK, "bin", pid.lower() + (".race" if race else "") + ".test")
-    cmd = ["go", "test", "-c", "-tags", "verif", "-vet=off", "-o", out]
+    out = os.path.join(WORK, "bin", pid.lower() + bin_suffix() + (".race" if race else "") + ".test")
+    cmd = ["go", "test", "-c", "-tags", "verif", "-vet=off", "-o", out] + modfile_args()
     if race:
         cmd.append("-race")
     cmd.append("./props/" + pid.lower())
@@ -238,7 +260,7 @@ def run_fuzz(pid, cfg, seed):
         name, ftime = fz["name"], fz.get("time", "60s")
         cache = os.path.join(WORK, "fuzzcache", pid.lower())
         os.makedirs(cache, exist_ok=True)
-        cmd = ["go", "test", "-tags", "verif", "-vet=off", "-run", "^$", "-fuzz", "^%s$" % name, "-fuzztime", ftime,
+        cmd = ["go", "test", "-tags", "verif", "-vet=off"] + modfile_args() + ["-run", "^$", "-fuzz", "^%s$" % name, "-fuzztime", ftime,
                "-test.fuzzcachedir", cache, "./props/" + pid.lower()]
         t0 = time.time()
         r = subprocess.run(cmd, cwd=ROOT, env=env({"VERIF_TIER": "thorough", "VERIF_FUZZ": "1"}), stdout=subprocess.PIPE, stderr=subprocess.STDOUT, text=True)
@@ -393,7 +415,7 @@ def replay(pid, cfg, path):
         dst = os.path.join(tdir, "replay-" + fname)
         shutil.copy(path, dst)
         try:
-            r = subprocess.run(["go", "test", "-tags", "verif", "-vet=off", "-run", "^%s$/replay-%s" % (target, fname), "./props/" + pid.lower()],
+            r = subprocess.run(["go", "test", "-tags", "verif", "-vet=off"] + modfile_args() + ["-run", "^%s$/replay-%s" % (target, fname), "./props/" + pid.lower()],
                                cwd=ROOT, env=env({"VERIF_FUZZ": "1"}), stdout=subprocess.PIPE, stderr=subprocess.STDOUT, text=True)
         finally:
             os.remove(dst)
